@@ -70,7 +70,7 @@ def impl(case: Case) -> str:
         return text
     n = len(real.systems)
     sims = {}
-    sims["fwd"] = [real.simulate(real.systems[k], plan) for k in range(n)]
+    sims["fwd"] = [real.simulate(real.systems[k], plan, probe_absent=True) for k in range(n)]
     bwd = [None] * n
     for k in reversed(range(n)):
         bwd[k] = real.simulate(real.systems[k], plan)
@@ -671,6 +671,8 @@ class Gen:
             if k == "add":
                 n = r.choice(NEWNAMES) if r.random() < 0.92 else r.choice(names)
                 cd = self.classdef(n, lower_of(n), pnames, ents, dp=r.choice(["month", "year"]))
+                if n in NEWNAMES and cd["vt"] in NOREF:      # (the new names are added / updated with several classes:
+                    cd.update(vt="float", default=None)      #  keep them in one type family)
                 if r.random() < 0.05:
                     cd["vt"] = None
                 return ("add", cd)
@@ -680,6 +682,8 @@ class Gen:
                     cd = self.update_def(n, info[n], lower_of(n), pnames)
                 else:
                     cd = self.classdef(n, lower_of(n), pnames, ents, dp="month")
+                    if cd["vt"] in NOREF:
+                        cd.update(vt="float", default=None)
                 if r.random() < 0.04 and cd["formulas"] and cd["formulas"][0][0] > 366:
                     cd["end"] = cd["formulas"][0][0] - 1          # a formula that starts after `end`: refused
                 return ("upd", cd)
@@ -862,7 +866,7 @@ MALFORMED = [
 
 
 def generate(rng: random.Random, tier: str):
-    n = 6000 if tier == "quick" else 60000
+    n = 4000 if tier == "quick" else 60000
     for i in range(n):
         g = Gen(rng)
         yield case_of(g.history(tier))
